@@ -103,13 +103,13 @@ def tableParts : List Nat :=
     at the end and at the start of a line is removed (CSS Text §4.1.2) -/
 def lineBreak : List Nat := [pk! "br"]
 
-/-- §15 Rendering, "Hidden elements": `display: none`; `noscript` only `display: none !important` when scripting is
-    enabled (with scripting disabled it is an *inline* element: white space around it is then significant —
-    the property is carried for scripting-enabled user agents, HTML 4.01 classed NOSCRIPT as `%block;`) -/
+/-- §15 Rendering, "Hidden elements": `display: none`.  (`noscript` is *not* listed: it is only
+    `display: none !important` when scripting is enabled; with scripting disabled it is an inline element and
+    white space next to it is rendered.) -/
 def notRendered : List Nat :=
   [pk! "area", pk! "base", pk! "basefont", pk! "datalist", pk! "head", pk! "link", pk! "meta",
    pk! "noembed", pk! "noframes", pk! "param", pk! "rp", pk! "script", pk! "style", pk! "template",
-   pk! "title", pk! "noscript"]
+   pk! "title"]
 
 /-- §4.10 "The option element": the label and value of an `option` are its text with ASCII white space
     *stripped and collapsed*; `select` and `optgroup` render only their `option`/`optgroup` children
